@@ -79,6 +79,13 @@ def one(acc, d, driver, data, hist, idx):
     d = Path(d)
     src = d / f"file{idx}.bin"
     src.write_bytes(data)
+    if idx % 3 == 1:
+        # the path handed to pack_file is a SYMLINK to the file (packer source directories may contain in-directory links)
+        (d / "store dir").mkdir()
+        real = d / "store dir" / f"blob.{idx}.data"
+        src.rename(real)
+        src.symlink_to(real)
+        acc.count("symlinked_sources")
     sub = CE.Subject(d, driver)
     mc = sub.mc
     copies = {}
@@ -215,7 +222,7 @@ def run_unit(u, acc):
 
 def inconclusive(cov):
     c = cov["counters"]
-    return [f"monitor counter {k} is zero" for k in ("readbacks", "marker_cases", "merged_records_read", "histories") if not c.get(k)]
+    return [f"monitor counter {k} is zero" for k in ("readbacks", "marker_cases", "merged_records_read", "histories", "symlinked_sources") if not c.get(k)]
 
 
 def replay(case, acc):
